@@ -5,5 +5,5 @@ CONSTANTS
   Schema <- SchemaDef
   InvalidNames = {"1x"}
   MaxSuffix = 3
-  KF = {"F7", "F9", "F15", "F18"}
+  KF = {"F7", "F18"}
   NM = 2
